@@ -119,8 +119,9 @@ func runRetry(id int, c *retryCase, target string) retryLine {
 	s := &script{msg: wire, outcomes: c.Outcomes}
 	var n int64
 	var err error
+	panicked := ""
 	if target == "writer" {
-		n, err = m.WriteToWithRetry(scriptWriter{s}, uint(c.Retries))
+		panicked = safely(func() { n, err = m.WriteToWithRetry(scriptWriter{s}, uint(c.Retries)) })
 	} else {
 		mc := memnet.NewConn()
 		mc.OnWrite = func(k int, b []byte) memnet.WriteOutcome {
@@ -128,7 +129,7 @@ func runRetry(id int, c *retryCase, target string) retryLine {
 			return memnet.WriteOutcome{N: acc, Err: e}
 		}
 		dc, _ := diam.NewConn(mc, "10.0.0.2:3868", diam.NewServeMux(), dict.Default)
-		n, err = m.WriteToWithRetry(dc, uint(c.Retries))
+		panicked = safely(func() { n, err = m.WriteToWithRetry(dc, uint(c.Retries)) })
 		defer mc.Close()
 	}
 	s.mu.Lock()
@@ -139,6 +140,9 @@ func runRetry(id int, c *retryCase, target string) retryLine {
 	l.Obs.N = int(n)
 	l.Obs.Err = errKind(err)
 	l.Obs.ErrText = errStr(err)
+	if panicked != "" {
+		l.Obs.Err, l.Obs.ErrText = "panic", panicked
+	}
 	return l
 }
 
